@@ -854,11 +854,21 @@ func c04API(ctx *Ctx, v, other cty.Value) {
 		failAPI("unmarkpaths-value", "UnmarkDeepWithPaths and UnmarkDeep return different values", encVal(up))
 	}
 	var back cty.Value
+	pvmBefore := c04PvmWire(pvm, false)
 	p, _ := try(func() { back = up.MarkWithPaths(pvm) })
 	if p {
 		failAPI("paths-roundtrip-panic", "MarkWithPaths(UnmarkDeepWithPaths(v)) panics", "panic")
 	} else {
-		ctx.Add("mk.markpaths", "ok "+encVal(back), encVal(up), c04PvmWire(pvm, false))
+		// the records are the caller's: applying them must not consume them, and applying them again
+		// (to the same value, or to another value of the same shape) must mark the same positions
+		if after := c04PvmWire(pvm, false); after != pvmBefore {
+			failAPI("markpaths-consumes-records", "MarkWithPaths changed the caller's []PathValueMarks: a second application loses marks", after+" (was "+pvmBefore+")")
+		}
+		var back2 cty.Value
+		if p2, _ := try(func() { back2 = up.MarkWithPaths(pvm) }); p2 || encVal(back2) != encVal(back) {
+			failAPI("paths-roundtrip-twice", "a second MarkWithPaths with the same records does not give the same marked value (marks lost)", encVal(back2))
+		}
+		ctx.Add("mk.markpaths", "ok "+encVal(back), encVal(up), pvmBefore)
 		if encVal(back) != w {
 			same := false
 			try(func() { same = back.RawEquals(v) })
